@@ -1900,3 +1900,108 @@ B("r24-fraction-capped", ["C07"], ["R24"],
 B("r12-borrow-wrong-direction", ["C04"], ["R12"],
   ("data", "            if diff_second < 0:\n                diff_minute -= 1",
    "            if diff_second < 0:\n                diff_minute += 1"))
+
+
+# ===================================================== round-8 rules =======
+B("r77-fraction-guard-on-seconds", ["C01"], ["R77"],
+  ("data", "        if (self._hour_of_day is not None and\n"
+           "                self._minute_of_hour is not None):\n"
+           "            hours_remainder",
+   "        if (self._hour_of_day is not None and\n"
+   "                self._second_of_minute is not None):\n"
+   "            hours_remainder"), canary=True)
+B("r77-day-of-year-by-truth", ["C04"], ["R77"],
+  ("data", "        if self._day_of_year is not None:\n"
+           "            while self._day_of_year < 1:",
+   "        if self._day_of_year:\n"
+   "            while self._day_of_year < 1:"))
+K("r77-guards-as-early-nesting",
+  ("data", "        if self._minute_of_hour is not None:\n"
+           "            num_hours, minutes = divmod(self._minute_of_hour,\n"
+           "                                        CALENDAR.MINUTES_IN_HOUR)\n"
+           "            self._hour_of_day += num_hours\n"
+           "            self._minute_of_hour = minutes\n",
+   "        if not (self._minute_of_hour is None):\n"
+   "            num_hours, minutes = divmod(self._minute_of_hour,\n"
+   "                                        CALENDAR.MINUTES_IN_HOUR)\n"
+   "            self._minute_of_hour = minutes\n"
+   "            self._hour_of_day += num_hours\n"))
+B("r78-unknown-zone-shifted", ["C20"], ["R78"],
+  ("data", "        if dest_time_zone._unknown:\n            return self\n",
+   ""), canary=True)
+K("r78-unknown-zone-via-property",
+  ("data", "        if dest_time_zone._unknown:\n            return self\n",
+   "        if dest_time_zone.unknown:\n            return self\n"))
+B("r79-reverse-range-stops-at-two", ["C01"], ["R79"],
+  ("data", "                else:\n"
+           "                    day_range = range(days, 0, -1)",
+   "                else:\n"
+   "                    day_range = range(days, 1, -1)"), canary=True)
+B("r79-forward-range-one-short", ["C01"], ["R79"],
+  ("data", "                else:\n"
+           "                    day_range = range(1, days + 1)",
+   "                else:\n"
+   "                    day_range = range(1, days)"))
+K("r79-range-bounds-respelled",
+  ("data", "                else:\n"
+           "                    day_range = range(1, days + 1)",
+   "                else:\n"
+   "                    day_range = range(1, 1 + days)"))
+B("r49-first-walk-ignores-year", ["C03"], ["R49"],
+  ("data", "        if (start_year == year and\n"
+           "                iter_month == month_of_year and",
+   "        if (iter_month == month_of_year and"), canary=True)
+K("r49-walk-match-as-tuple",
+  ("data", "            if (iter_start_year == year and\n"
+           "                    iter_month == month_of_year and\n"
+           "                    iter_day == day_of_month):",
+   "            if (iter_start_year, iter_month, iter_day) == cal_date:"))
+B("r12-refill-an-hour-of-seconds", ["C18"], ["R12"],
+  ("data", "                diff_second += CALENDAR.SECONDS_IN_MINUTE",
+   "                diff_second += CALENDAR.SECONDS_IN_HOUR"), canary=True)
+K("r12-refill-spelled-as-ratio",
+  ("data", "                diff_second += CALENDAR.SECONDS_IN_MINUTE",
+   "                diff_second += (CALENDAR.SECONDS_IN_HOUR //\n"
+   "                                CALENDAR.MINUTES_IN_HOUR)"))
+B("r44-count-truncated", ["C18"], ["R44"],
+  ("data", "Duration(seconds=float(num_seconds))",
+   "Duration(seconds=int(num_seconds))"), canary=True)
+K("r44-count-through-a-local",
+  ("data", "    return reference_timepoint + Duration(seconds=float(num_seconds))",
+   "    count = float(num_seconds)\n"
+   "    return reference_timepoint + Duration(seconds=count)"))
+B("r19-early-exit-or", ["C13"], ["R19"],
+  ("data", "            if self._end_point is None and iter_timepoint > timepoint:",
+   "            if self._end_point is None or iter_timepoint > timepoint:"),
+  canary=True)
+K("r19-early-exits-merged",
+  ("data", "            if self._start_point is None and iter_timepoint < timepoint:\n"
+           "                return False\n"
+           "            if self._end_point is None and iter_timepoint > timepoint:\n"
+           "                return False\n",
+   "            if (self._start_point is None and iter_timepoint < timepoint\n"
+   "                    or self._end_point is None and\n"
+   "                    iter_timepoint > timepoint):\n"
+   "                return False\n"))
+B("r27-flag-raised-by-zero", ["C10"], ["R27"],
+  ("data", "                if attr_value < 0:\n"
+           "                    is_fully_negative = True",
+   "                if not attr_value < 0:\n"
+   "                    is_fully_negative = True"), canary=True)
+B("r27-flag-not-final", ["C10"], ["R27"],
+  ("data", "                if attr_value > 0:\n"
+           "                    is_fully_negative = False\n"
+           "                    break\n",
+   "                if attr_value > 0:\n"
+   "                    is_fully_negative = False\n"))
+K("r27-flag-tests-mirrored",
+  ("data", "                if attr_value < 0:\n"
+           "                    is_fully_negative = True",
+   "                if 0 > attr_value:\n"
+   "                    is_fully_negative = True"))
+B("r22-zone-minutes-floor-raised", ["C06"], ["R22"],
+  ("data", "            min_minutes = 1 - CALENDAR.MINUTES_IN_HOUR",
+   "            min_minutes = 2 - CALENDAR.MINUTES_IN_HOUR"), canary=True)
+K("r22-zone-minutes-floor-respelled",
+  ("data", "            min_minutes = 1 - CALENDAR.MINUTES_IN_HOUR",
+   "            min_minutes = -(CALENDAR.MINUTES_IN_HOUR - 1)"))
